@@ -44,7 +44,7 @@ func enumerate(alphabet []string, n int, f func(string)) {
 
 // lexPieces are lexemes and fragments used to build random longer sources.
 var lexPieces = []string{
-	"foo", "let", "and", "or", "in", "by", "$left", "_x1", "a$b", "0", "007", "1.5", ".5", "1.", "1e5", "1E+5",
+	"foo", "let", "and", "or", "in", "by", "In", "BY", "Or", "AND", "iN", "Let", "and1", "_or", "$left", "_x1", "a$b", "0", "007", "1.5", ".5", "1.", "1e5", "1E+5",
 	"1e-", "1e", "0x1F", "0X", "0xg", "0xffffffffffffffff", "0x10000000000000000", "18446744073709551616", "0x00000000000000001", "0X0000000000000000ff", "0x0000ffffffffffffffff",
 	"0x000000000000000000000000", "0x00010000000000000000", "0x0000000000000000", "0x00000000000000000", "0e0", "1e0", "7E+00", "1e000",
 	"1.2.3", "1..2", "0.e1", "00.5", "0e0", "'a'", "\"b\"", "'it''s'", "'a\\'b'", "\"\\n\\t\\\\\"", "'unterminated",
